@@ -256,6 +256,41 @@ struct Probe
     }
 };
 
+// further functor shapes (explored on every fifth list and on every single-element list)
+struct ProbeVoid // no extra argument, void result, non-const call operator (counters live outside: the dispatcher may hold a copy or a reference)
+{
+    int* calls;
+    int* tagidx;
+    template <class Arch>
+    void operator()(Arch)
+    {
+        ++*calls;
+        *tagidx = Probe::index_of<Arch>(std::make_index_sequence<XV_NTAGS> {});
+    }
+};
+struct ProbeRef // returns a reference to its lvalue argument: the caller must get that very object back
+{
+    int* calls;
+    template <class Arch>
+    int& operator()(Arch, int& x) const
+    {
+        ++*calls;
+        return x;
+    }
+};
+struct ProbeMove // move-only result, const lvalue and by-value arguments
+{
+    int* calls;
+    int* tagidx;
+    template <class Arch>
+    std::unique_ptr<long> operator()(Arch, const int& a, long b, double c) const
+    {
+        ++*calls;
+        *tagidx = Probe::index_of<Arch>(std::make_index_sequence<XV_NTAGS> {});
+        return std::unique_ptr<long>(new long(a * 1000 + b * 10 + (long)c));
+    }
+};
+
 template <size_t... I>
 struct mk_list
 {
@@ -343,6 +378,34 @@ static void run_list(Result& R, int K)
             add_violation(R, "dispatch", std::string("dispatched to ") + (tagidx >= 0 ? xv_tag_names[tagidx] : "?") + " but the first available architecture of the list is " + xv_tag_names[first], cf.first, cf.second, "", "list " + std::to_string(K) + ": " + list);
         if (lv != 105 || rv || r != 14 * 3 + 5)
             add_violation(R, "dispatch", "arguments or result not forwarded (lvalue " + std::to_string(lv) + ", rvalue " + (rv ? "not moved" : "moved") + ", result " + std::to_string(r) + ")", cf.first, cf.second, "", "list " + std::to_string(K) + ": " + list);
+        if (K % 5 == 0 || k == 1)
+        {
+            // the same dispatcher object called twice: one invocation per call, the same architecture both times
+            int cv = 0, tv = -1;
+            ProbeVoid pv { &cv, &tv };
+            auto dv = xsimd::dispatch<AL>(pv);
+            static_assert(std::is_void<decltype(dv())>::value, "dispatch of a void functor returns void");
+            dv();
+            const int first_tag = tv;
+            dv();
+            R.transitions += 2;
+            if (cv != 2 || first_tag != first || tv != first)
+                add_violation(R, "dispatch", "void functor without arguments, dispatcher called twice: " + std::to_string(cv) + " invocations, architectures " + std::to_string(first_tag) + " and " + std::to_string(tv) + ", expected " + std::to_string(first) + " both times", cf.first, cf.second, "", "list " + std::to_string(K) + ": " + list);
+            int c2 = 0, x = 7;
+            ProbeRef prf { &c2 };
+            auto&& back = xsimd::dispatch<AL>(prf)(x);
+            static_assert(std::is_same<decltype(xsimd::dispatch<AL>(prf)(x)), int&>::value, "dispatch of a functor returning int& returns int&");
+            ++R.transitions;
+            if (c2 != 1 || &back != &x)
+                add_violation(R, "dispatch", "functor returning a reference: " + std::to_string(c2) + " invocations, the returned reference " + (&back == &x ? "is" : "is not") + " the argument object", cf.first, cf.second, "", "list " + std::to_string(K) + ": " + list);
+            int c3 = 0, t3 = -1;
+            const int ca = 3;
+            const ProbeMove pm { &c3, &t3 };
+            std::unique_ptr<long> up = xsimd::dispatch<AL>(pm)(ca, 4L, 5.0);
+            ++R.transitions;
+            if (c3 != 1 || t3 != first || !up || *up != 3045)
+                add_violation(R, "dispatch", "const functor with a move-only result: " + std::to_string(c3) + " invocations, architecture " + std::to_string(t3) + " (expected " + std::to_string(first) + "), result " + (up ? std::to_string(*up) : std::string("null")), cf.first, cf.second, "", "list " + std::to_string(K) + ": " + list);
+        }
     }
 }
 
